@@ -278,3 +278,4 @@ Definition category_code (c : category) : N :=
              | CatImportants => 4 | CatTagged => 5 | CatFilters => 6 | CatNowhere => 7 end.
 Definition cat_eqb (a b : category) : bool := N.eqb (category_code a) (category_code b).
 Definition oz_eqb := opt_eqb Z.eqb.
+Definition zlit (neg : bool) (n : N) : Z := if neg then Z.opp (Z.of_N n) else Z.of_N n.
